@@ -11,12 +11,13 @@ for ID in $IDS; do
   git -C /repo apply $D/patch.diff
   T=$(cd /repo && timeout 900 /venv/bin/python -m pytest -q -p no:cacheprovider 2>&1 | tail -1)
   S=$(mktemp -d); cp $D/demonstration.py $S/demo.py
-  (cd $S && PYTHONPATH=/repo timeout 600 /venv/bin/python demo.py >/dev/null 2>&1); DW=$?
+  PY=/venv/bin/python; case $CK in C37|C38) PY=/verif/.venv/bin/python;; esac      # the NumPy code paths need the check interpreter (NumPy wheel)
+  (cd $S && PYTHONPATH=/repo timeout 600 $PY demo.py >/dev/null 2>&1); DW=$?
   OUT=$(VERIF_TASK_LIMIT_S=600 timeout 1800 bin/check $CK 2>&1); RC=$?
   R=$(echo "$OUT" | grep '^VIOLATION' | grep -v no-failing | head -1 | sed 's/.*replay=\([^ ]*\).*/\1/'); RR=none
   if [ -n "$R" ]; then timeout 600 bin/check --replay "$R" >/dev/null 2>&1; RR=$?; fi
   git -C /repo checkout -- .
-  (cd $S && PYTHONPATH=/repo timeout 600 /venv/bin/python demo.py >/dev/null 2>&1); DO=$?
+  (cd $S && PYTHONPATH=/repo timeout 600 $PY demo.py >/dev/null 2>&1); DO=$?
   RB=none
   if [ -n "$R" ]; then timeout 600 bin/check --replay "$R" >/dev/null 2>&1; RB=$?; fi
   rm -rf $S
